@@ -242,6 +242,7 @@ CHECKS = {
             dict(run="TestConn", checks_quick=9000, checks_thorough=70000, shards_quick=2, shards_thorough=8, timeout=1500),
             dict(run="TestClient", checks_quick=3500, checks_thorough=35000, shards_quick=4, shards_thorough=8, timeout=1800),
             dict(run="TestReadPartitionsVersions", checks_quick=1500, checks_thorough=40000, shards_thorough=2),
+            dict(run="TestListOffsetsIsolation", checks_quick=1500, checks_thorough=40000, shards_thorough=2),
         ],
     ),
     "C20": dict(
